@@ -347,3 +347,26 @@ Example C09_nonvacuous_wedge :
   let '(e1, r1) := h e0 (RCall 0 None) in
   r1 = Panic /\ alive e1 = false /\ snd (h e1 (RByNumber S_latest)) = Panic /\ snd (h e1 (RMine 1)) = Panic.
 Proof. vm_compute. repeat split; reflexivity. Qed.
+
+(* assumptions of the theorems above that had no report next to them *)
+Print Assumptions C09_current_is_repaired.
+Print Assumptions C09_select_bytes_as_written_refuted.
+Print Assumptions C09_resolve_block_hash_or_number_no_panic.
+Print Assumptions C09_get_logs_front_no_panic.
+Print Assumptions C09_get_logs_range_refuted.
+Print Assumptions C09_get_logs_range_as_found_wrapping_no_panic.
+Print Assumptions C09_block_tx_count_no_panic.
+Print Assumptions C09_block_tx_count_refuted.
+Print Assumptions C09_initialise_no_panic.
+Print Assumptions C09_initialise_refuted.
+Print Assumptions C09_mine_blocks_steps.
+Print Assumptions C09_mine_blocks_refuted.
+Print Assumptions C09_estimate_gas_as_found_terminates.
+Print Assumptions C09_estimate_gas_as_found_refuted.
+Print Assumptions C09_get_locked_pkscript_no_panic.
+Print Assumptions C09_get_locked_pkscript_refuted.
+Print Assumptions C09_last_sat_location_as_found_wrapping_no_panic.
+Print Assumptions C09_last_sat_location_refuted.
+Print Assumptions C09_bip322_verify_refuted.
+Print Assumptions C09_op_return_tx_id_no_panic.
+Print Assumptions C09_read_requests_leave_engine_unchanged.
